@@ -55,6 +55,7 @@ def required_cells(tier):
     req.update({"alias": 6, "history": 6, "history:control-on-two-grids": 3,
                 "history:getters-read-in-between": 3,
                 "history:estimate-then-compute": 1,
+                "history:factory-results-adapted-in-place": 1,
                 "history:process-tensor-edited-after-use": 1,
                 "attr:alpha": 1,
                 "attr:temperature": 1, "attr:cutoff": 1, "attr:zeta": 1,
@@ -652,6 +653,28 @@ def run_history(case):
         edit_devs.append(float(np.abs(edited - scratch).max()))
         return np.zeros(1)
 
+    factory_devs = []
+
+    def op_factory(ob, pt):
+        """The library's operator factories hand out arrays that belong to
+        the caller: adapting one in place (h = sigma('x'); h *= 0.65) must
+        not change what the factory returns the next time."""
+        from oqupy import operators as ops_
+        calls = [(ops_.sigma, n) for n in ("id", "x", "y", "z", "+", "-")] \
+            + [(ops_.spin_dm, n) for n in ("up", "down", "z+", "x+", "y-",
+                                           "mixed")] \
+            + [(ops_.identity, 3), (ops_.create, 3), (ops_.destroy, 4)]
+        for fn, arg in calls:
+            first = fn(arg)
+            want = np.array(first, dtype=complex)
+            if isinstance(first, np.ndarray) and first.flags.writeable:
+                first *= 0.65
+                first[0, 0] = 0.8
+            again = np.asarray(fn(arg), dtype=complex)
+            factory_devs.append((fn.__name__, str(arg),
+                                 float(np.abs(again - want).max())))
+        return np.zeros(1)
+
     def op_guess(ob, pt):
         """A read-only estimate of computation parameters for the shared
         system and bath."""
@@ -679,7 +702,7 @@ def run_history(case):
         return b"".join(np.ascontiguousarray(x, dtype=complex).tobytes()
                         for x in parts)
 
-    ops = {"ptedit": op_ptedit, "guess": op_guess, "peek": op_peek, "tempo": op_tempo, "dyn": op_dyn, "corr": op_corr,
+    ops = {"factory": op_factory, "ptedit": op_ptedit, "guess": op_guess, "peek": op_peek, "tempo": op_tempo, "dyn": op_dyn, "corr": op_corr,
            "grad": op_grad, "tebd": op_tebd, "pt": op_pt, "eta": op_eta,
            "ctl": op_ctl, "ctl_shift": op_ctl_shift, "ctl_dt": op_ctl_dt}
     names = list(ops)
@@ -690,6 +713,8 @@ def run_history(case):
         seq[len(seq) // 2] = "peek"
     if i % 4 == 2:
         seq[-1] = "ptedit"
+    if i % 4 == 0:
+        seq[0] = "factory"
     if i % 4 == 3:
         # estimate first, compute afterwards
         seq[0] = "guess"
@@ -746,6 +771,16 @@ def run_history(case):
                         f"(set_mpo_tensor + compute_caps) after its first use "
                         f"differs from one built with the new tensors from "
                         f"scratch by {max(edit_devs):.3e}",
+                "mechanism": "stale-state", "detail": {"seq": seq}})
+    if factory_devs:
+        cells.append("history:factory-results-adapted-in-place")
+        bad = [x for x in factory_devs if x[2] > 0]
+        if bad:
+            violations.append({
+                "what": f"oqupy.operators.{bad[0][0]}({bad[0][1]!r}) returns "
+                        f"something else after an earlier result was "
+                        f"modified in place by its caller (changed by "
+                        f"{bad[0][2]:.3g}; {len(bad)} factory calls affected)",
                 "mechanism": "stale-state", "detail": {"seq": seq}})
     if seq[0] == "guess":
         cells.append("history:estimate-then-compute")
